@@ -385,7 +385,76 @@ def r3_round_trip(ctx):
                 f"VariantIntervalCollection.from_dict(to_dict(), parent) on a {which} parent does not reproduce the alternative sequence", repo.fn(f"{VC}.from_dict"))
 
 
+def r4_vcf_grouping(ctx):
+    """deciding rule (interpreted): convert_vcf_records_to_model on modelled VCF records.  Every record ends up in the result
+    of its own chromosome whatever the order of the records; records sharing a phase set form one collection, unphased ones
+    their own; coordinates / alternative alleles are carried over.  (The vcf package is absent: records are plain objects
+    with the attributes the function reads - CHROM, POS, affected_start/end, ALT[].sequence/.type, samples[].data.PS.)"""
+    r, repo = ctx.r, ctx.repo
+    fn = repo.fn("io.vcf.parser:convert_vcf_records_to_model")
+    it = gene_interp(repo, max_steps=10 ** 9)
+
+    class _Schema:
+        _interp_native_ = True
+
+        def load(self, d):
+            return Obj("VariantIntervalCollectionModel", **d)
+    it.hooks["VariantIntervalCollectionModel.Schema"] = lambda interp, selfv, args, kwargs: _Schema()
+
+    def rec(chrom, start, end, alts, ps=None):
+        data = Obj("CallData", **({"PS": ps} if ps is not None else {"GT": "0|1"}))
+        return Obj("VcfRecord", CHROM=chrom, POS=start + 1, affected_start=start, affected_end=end,
+                   ALT=[Obj("Substitution", sequence=a, type="SNV" if len(a) == end - start else "indel") for a in alts],
+                   samples=[Obj("Call", data=data)])
+
+    base = [("chr1", 3, 4, ["T"], None), ("chr1", 10, 12, ["A", "ACG"], 7), ("chr1", 20, 21, ["G"], 7), ("chr2", 5, 5, ["TT"], None),
+            ("chr2", 9, 10, ["C"], 3), ("chr1", 30, 31, ["C"], None)]
+    orders = {"sorted by chromosome": sorted(range(len(base)), key=lambda i: (base[i][0], base[i][1])),
+              "file order with one chromosome in two runs": list(range(len(base))),
+              "reversed": list(reversed(range(len(base))))}
+    n = 0
+    for oname, order in orders.items():
+        recs = [rec(*base[i]) for i in order]
+        n += 1
+        k, v = run(it, fn, [recs], {}, None)
+        if k != "ok":
+            r.violation("C13.R4", fn.qual, f"records {oname}", f"records {oname}: convert_vcf_records_to_model raises {v}", fn)
+            continue
+        got = {}
+        for chrom, colls in v.items():
+            for c in colls:
+                for vi in c.fields["variant_intervals"]:
+                    got.setdefault(chrom, []).append((vi["start"], vi["end"], vi["sequence"], vi.get("phase_block")))
+        want = {}
+        for chrom, s_, e, alts, ps in base:
+            for a in alts:
+                want.setdefault(chrom, []).append((s_, e if e != s_ else e + 1, a, ps))
+        cat = "records of one chromosome not adjacent" if oname != "sorted by chromosome" else "records sorted by chromosome"
+        r.check({c: sorted(x, key=str) for c, x in got.items()} == {c: sorted(x, key=str) for c, x in want.items()}, "C13.R4", fn.qual,
+                f"every record kept ({cat})",
+                f"records {oname}: variants per chromosome {dict((c, len(x)) for c, x in got.items())}; the file holds "
+                f"{dict((c, len(x)) for c, x in want.items())} (records of a chromosome that are not adjacent form several groups and the later "
+                f"group replaces the earlier one)", fn)
+        # phase sets: one collection per (chromosome, PS), one per unphased variant
+        if oname == "sorted by chromosome":
+            for chrom, colls in v.items():
+                sizes = sorted(len(c.fields["variant_intervals"]) for c in colls)
+                wsz = {}
+                for c2, s_, e, alts, ps in base:
+                    if c2 == chrom:
+                        for a in alts:
+                            wsz[(ps, None if ps is not None else (s_, a))] = wsz.get((ps, None if ps is not None else (s_, a)), 0) + 1
+                r.check(sizes == sorted(wsz.values()), "C13.R4", fn.qual, f"phase sets on {chrom}",
+                        f"{chrom}: collection sizes {sizes}; phase sets / unphased variants give {sorted(wsz.values())}", fn)
+    r.count(n)
+
+
 def r4_groupby_sorted(ctx):
+    ctx.r.soften("C13.R4s")  # strengthening of R4 (all record orders): recognises sorted(...) feeding groupby; never alarms
+    _r4_groupby_sorted(ctx)
+
+
+def _r4_groupby_sorted(ctx):
     """each itertools.groupby(x, key=k) in io/vcf must iterate something that was sorted by a key refining k"""
     r, repo = ctx.r, ctx.repo
     m = repo.module("io.vcf.parser")
@@ -409,10 +478,10 @@ def r4_groupby_sorted(ctx):
                         if isinstance(v, ast.Call) and call_tail(v) == "sorted":
                             skey = next((k.value for k in v.keywords if k.arg == "key"), None)
                             ok = skey is not None and key is not None and (src(skey) == src(key) or _refines(skey, key))
-            r.check(ok, "C13.R4", fn.qual, f"groupby key `{src(key) if key is not None else None}` on sorted input",
+            r.check(ok, "C13.R4s", fn.qual, f"groupby key `{src(key) if key is not None else None}` on sorted input",
                     f"`{src(call)[:100]}` groups input that is not sorted by the grouping key: records of one group that are not "
                     f"adjacent form several groups (later ones overwrite earlier ones)", (fn, call))
-    r.floor("C13.R4", "groupby sites in the VCF reader", n, 1)
+    r.floor("C13.R4s", "groupby sites in the VCF reader", n, 1)
 
 
 def _refines(skey, gkey):
@@ -444,5 +513,6 @@ RULES = [
     ("C13.RC", rk_coding),
     ("C13.RM", rm_haplotype_mapping),
     ("C13.R3", r3_round_trip),
-    ("C13.R4", r4_groupby_sorted),
+    ("C13.R4", r4_vcf_grouping),
+    ("C13.R4s", r4_groupby_sorted),
 ]
